@@ -1,4 +1,6 @@
+import Gtree.Generated.Heap.GrowSpread
 import Gtree.Lemmas.HeapSpread
+import Gtree.Lemmas.HeapGrower
 /-
   The one-pass printer of the From-Root text path (simple_tree_grow_spreader.go: `growAndSpread`,
   `assembleAndPrint`), translated over the heap by /verif/translate (heap mode): it assembles a node's branch (the
